@@ -766,7 +766,7 @@ def replace_all(s, old, new, n=-1):
         raise Unsupported('Replace with empty needle')
     if s.is_conc() and new.is_conc() and old.is_conc():
         return s_const(s.conc().replace(old.conc(), new.conc(), n if n >= 0 else -1))
-    out = EMPTY
+    out = []
     skip = 0   # remaining bytes of a match being consumed
     done = 0   # replacements made (only tracked when n >= 0)
     for p in range(s.cap):
@@ -781,9 +781,15 @@ def replace_all(s, old, new, n=-1):
             done = ite(start, i_bin('+', done, 1, 8, False), done, 8)
         emit = b_and(inr, free, b_not(start))
         piece = s_ite(start, new, s_ite(emit, Str([s.b[p]], 1), EMPTY))
-        out = s_concat(out, piece)
+        out.append(piece)
         skip = ite(start, L - 1, ite(free, 0, i_bin('-', skip, 1, 8, False), 8), 8)
-    return out
+    res = s_concat_all(out)
+    # tight length bound: every replaced needle of L bytes yields at most new.cap bytes
+    ubs = get_ub(s.ln) if not is_c(s.ln) else s.ln
+    ubs = min(ubs if ubs is not None else s.cap, s.cap)
+    nb = new.cap if not is_c(new.ln) else new.ln
+    bound = ubs if nb <= L else (ubs // L) * nb + ubs % L
+    return s_narrow(res, bound)
 
 
 @intr('strings.ReplaceAll', 'bytes.ReplaceAll')
@@ -903,17 +909,27 @@ def i_newreader(ex, st, g, args, pos):
     if isinstance(a, IfaceV):
         return a.v
     key = ex.ctx.newobj('buf')
-    st.heap[key] = LibV('Buffer', s=a, consumed=False)
+    st.heap[key] = LibV('Buffer', s=[a], consumed=False)
     return Ptr(key)
 
 
 # strings.Builder / bytes.Buffer --------------------------------------------------
 def lib_zero_builder():
-    return LibV('Builder', s=EMPTY)
+    return LibV('Builder', s=[])
 
 
 def lib_zero_buffer():
-    return LibV('Buffer', s=EMPTY, consumed=False)
+    return LibV('Buffer', s=[], consumed=False)
+
+
+def rope_str(parts):
+    """materialise a rope (list of pieces) ; the list is collapsed in place so the work is done once"""
+    if isinstance(parts, Str):
+        return parts
+    if len(parts) != 1:
+        r = s_concat_all(parts)
+        parts[:] = [r]
+    return parts[0] if parts else EMPTY
 
 
 LIB_ZERO['strings.Builder'] = lib_zero_builder
@@ -930,11 +946,13 @@ def _append_to(ex, st, g, p, piece, pos):
             ex.ctx.oblige('panic', 'nil dereference (builder)', b_and(g, ga), pos)
             continue
         o = get_path(st.heap[pa.obj], pa.path)
-        pieces = [(gb, pb) for gb, pb in alts_of(piece)]
-        new = o.d['s']
-        for gb, pb in pieces:
-            new = s_ite(b_and(ga, gb), s_concat(o.d['s'], pb), new)
-        st.heap[pa.obj] = set_path(st.heap[pa.obj], pa.path, o.with_(s=new))
+        pc = EMPTY
+        for gb, pb in alts_of(piece):
+            pc = s_ite(b_and(ga, gb), pb, pc)
+        parts = o.d['s']
+        parts = list(parts) if isinstance(parts, list) else [parts]
+        parts.append(pc)
+        st.heap[pa.obj] = set_path(st.heap[pa.obj], pa.path, o.with_(s=parts))
 
 
 @intr('(*strings.Builder).WriteString', '(*bytes.Buffer).WriteString', '(*bytes.Buffer).Write')
@@ -962,19 +980,19 @@ def i_builder_string(ex, st, g, args, pos):
     if isinstance(args[0], Ptr) and args[0].obj is None:
         return s_const('<nil>')
     o = _recv(ex, st, g, args[0], pos)
-    return lift_str(ex, st, [o], lambda o: o.d['s'])
+    return lift_str(ex, st, [o], lambda o: rope_str(o.d['s']))
 
 
 @intr('(*strings.Builder).Len', '(*bytes.Buffer).Len')
 def i_builder_len(ex, st, g, args, pos):
     o = _recv(ex, st, g, args[0], pos)
-    return lift_str(ex, st, [o], lambda o: o.d['s'].ln)
+    return lift_str(ex, st, [o], lambda o: rope_str(o.d['s']).ln)
 
 
 @intr('(*strings.Builder).Reset', '(*bytes.Buffer).Reset')
 def i_builder_reset(ex, st, g, args, pos):
     o = _recv(ex, st, g, args[0], pos)
-    ex.store(st, g, args[0], LibV(o.kind if not isinstance(o, ChoiceV) else 'Builder', **({'s': EMPTY} if (isinstance(o, LibV) and o.kind == 'Builder') else {'s': EMPTY, 'consumed': False})), pos)
+    ex.store(st, g, args[0], LibV(o.kind if not isinstance(o, ChoiceV) else 'Builder', **({'s': []} if (isinstance(o, LibV) and o.kind == 'Builder') else {'s': [], 'consumed': False})), pos)
     return None
 
 
@@ -989,11 +1007,12 @@ def i_buffer_writeto(ex, st, g, args, pos):
     w = args[1]
     if isinstance(w, IfaceV):
         w = w.v
-    _append_to(ex, st, g, w, o.d['s'], pos)
+    content = rope_str(o.d['s'])
+    _append_to(ex, st, g, w, content, pos)
     # after WriteTo the buffer is empty and the last operation is not a read that can be unread...
     # bytes.Buffer.WriteTo sets lastRead = opInvalid and, when everything was written, Reset()s the buffer
-    ex.store(st, g, args[0], LibV('Buffer', s=EMPTY, consumed=True), pos)
-    return (o.d['s'].ln, NILIFACE)
+    ex.store(st, g, args[0], LibV('Buffer', s=[], consumed=True), pos)
+    return (content.ln, NILIFACE)
 
 
 @intr('(*bytes.Buffer).UnreadByte')
@@ -1380,18 +1399,25 @@ def i_sort_strings(ex, st, g, args, pos):
     sl = args[0]
     if sl.arr is None:
         return None
-    if not is_c(sl.ln):
-        raise Unsupported('sort.Strings on symbolic-length slice')
-    es = slice_elems(st.heap, sl)[:sl.ln]
-    # odd-even transposition network (stable result irrelevant for strings: equal strings are identical)
-    n = len(es)
-    es = list(es)
+    if is_c(sl.ln):
+        n = sl.ln
+        es = list(slice_elems(st.heap, sl)[:n])
+        valid = [True] * n
+    else:
+        n = min(sl.cap, get_ub(sl.ln) if get_ub(sl.ln) is not None else sl.cap)
+        es = list(slice_elems(st.heap, sl)[:n])
+        es = [e if e is not None else EMPTY for e in es]
+        valid = [i_cmp('<', i, sl.ln, W, True) for i in range(n)]
+    # odd-even transposition network; slots beyond the length sort to the end
     for rnd in range(n):
         for i in range(rnd % 2, n - 1, 2):
-            sw = s_lt(es[i + 1], es[i])
+            sw = b_and(valid[i + 1], b_or(b_not(valid[i]), s_lt(es[i + 1], es[i])))
             a, b = es[i], es[i + 1]
             es[i] = s_ite(sw, b, a)
             es[i + 1] = s_ite(sw, a, b)
+            va, vb = valid[i], valid[i + 1]
+            valid[i] = ite(sw, vb, va)
+            valid[i + 1] = ite(sw, va, vb)
     arr = st.heap[sl.arr]
     e = list(arr.e)
     e[sl.off:sl.off + n] = es
@@ -1452,6 +1478,21 @@ def cpath(v):
     if not (isinstance(v, Str) and v.is_conc()):
         raise Unsupported('file path must be concrete in the file-system model')
     return posixpath.normpath(v.conc().decode('latin1'))
+
+
+@harness('vStubJoin')
+def h_stub_join(ex, st, g, args, pos):
+    st.heap['STUB:join'] = args[0]
+    return None
+
+
+@intr('github.com/itchyny/rassemble-go.Join')
+def i_rassemble_join(ex, st, g, args, pos):
+    stub = st.heap.get('STUB:join')
+    if stub is None:
+        raise Unsupported('rassemble.Join reached without a stub (use vStubJoin or a nondet stub)')
+    ex.ctx.note('rassemble.Join stubbed: returns the harness-provided text, nil error')
+    return (stub, NILIFACE)
 
 
 @harness('vTempDir')
